@@ -8,7 +8,7 @@ import CasbinV.Py.Str
 * `casbin/persist/adapters/string_adapter.py`       `load_policy`, `save_policy` (after repair F08: a missing `p`/`g`
   section is tolerated, as in the file adapter)
 * `casbin/persist/adapters/filtered_file_adapter.py` `load_policy`, `load_filtered_policy`, `load_filtered_policy_file`,
-  `save_policy`, `is_filtered`, `filter_line`, `filter_words`
+  `save_policy`, `is_filtered`, `filter_line`, `split_line`, `filter_words` (after repair F20)
 * `casbin/core_enforcer.py`                         `load_policy`, `load_filtered_policy`,
   `load_increment_filtered_policy`, `is_filtered`, `save_policy` (model without priority columns: the two
   `sort_policies_*` calls are the identity there — recorded assumption)
@@ -172,23 +172,37 @@ structure Filter where
 /-- `not (v and v.strip())` -/
 def blank (v : Str) : Bool := v.isEmpty || (strip v).isEmpty
 
-/-- `filter_words` (true = skip the line).  After the length guard `line[i + 1]` exists for every `i < len(filter)`,
-    so the `enumerate` loop is a zip with `line[1:]`. -/
-def filterWords (line : List Str) (flt : List Str) : Bool :=
-  if line.length < flt.length + 1 then true
-  else (flt.zip (line.drop 1)).any fun (v, w) => !blank v && strip v != strip w
+/-- the `enumerate(filter)` loop of `filter_words`, `rest = line[i + 1:]`: a non-blank filter value skips the line when
+    there is no field at its position or the field differs -/
+def filterWordsAux : List Str → List Str → Bool
+  | [], _ => false
+  | v :: vs, [] => !blank v || filterWordsAux vs []
+  | v :: vs, w :: ws => (!blank v && strip v != strip w) || filterWordsAux vs ws
 
-/-- `filter_line` with `filter = [P, G]` (true = skip the line) -/
-def filterLine (line : Str) (f : Filter) : Bool :=
-  let p := splitOn ',' line
-  match p with
-  | [] => true
-  | p0 :: _ =>
-    if strip p0 == ['g'] then
-      if f.G.isEmpty || f.G.all (fun x => (strip x).isEmpty) then false
-      else filterWords p f.G
-    else if strip p0 == ['p'] then filterWords p f.P
-    else filterWords p []
+/-- `filter_words` (true = skip the line), after repair F20 (no length guard) -/
+def filterWords (line : List Str) (flt : List Str) : Bool := filterWordsAux flt (line.drop 1)
+
+/-- `split_line`: the loader's tokenizer loop, fields stripped (after repair F20 the filter sees the loader's fields) -/
+def splitLine (line : Str) : Except Err (List Str) :=
+  match tokLoop line 0 [] with
+  | .error e => .error e
+  | .ok toks => .ok (toks.map strip)
+
+/-- `filter_line` with `filter = [P, G]` (true = skip the line); raises where the tokenizer raises -/
+def filterLine (line : Str) (f : Filter) : Except Err Bool :=
+  if line.isEmpty || line.take 1 == ['#'] then .ok false
+  else
+    match splitLine line with
+    | .error e => .error e
+    | .ok p =>
+      match p with
+      | [] => .ok true
+      | p0 :: _ =>
+        if strip p0 == ['g'] then
+          if f.G.isEmpty || f.G.all (fun x => (strip x).isEmpty) then .ok false
+          else .ok (filterWords p f.G)
+        else if strip p0 == ['p'] then .ok (filterWords p f.P)
+        else .ok (filterWords p [])
 
 /-- `is_empty_filter` -/
 def isEmptyFilter (f : Filter) : Bool :=
@@ -201,8 +215,11 @@ def loadFilteredFile (text : Str) (f : Filter) (st : Store) : Store × Option Er
     (fun l st =>
       let l := strip l
       if l.isEmpty then .ok st
-      else if filterLine l f then .ok st
-      else loadPolicyLine l st)
+      else
+        match filterLine l f with
+        | .error e => .error e
+        | .ok true => .ok st
+        | .ok false => loadPolicyLine l st)
     (splitOn '\n' text) st
 
 /-! ## the enforcer with a `FilteredFileAdapter` -/
